@@ -110,7 +110,6 @@ func main() {
 		f, err := os.Create(pf)
 		if err == nil {
 			pprof.StartCPUProfile(f)
-			defer pprof.StopCPUProfile()
 		}
 	}
 	only := os.Getenv("C04_ONLY") // developer aid: run a single family (evidence is then marked capped)
@@ -157,7 +156,7 @@ func main() {
 	rep.Extra("A2iii_nodes_mutated", b.nMut)
 	rep.AddTraces(rep.Evaluations)
 	flushRefused()
-	rep.Assume("ref/refsnbt (three-valued SNBT reader, self-tested on ~230 hand vectors and on the published bigtest values) and ref/refnbt are trusted")
+	rep.Assume("ref/refsnbt (three-valued SNBT reader, self-tested on 200+ hand vectors and on the published bigtest values) and ref/refnbt are trusted")
 	rep.Assume("unspecified (executed, must not panic, accepted output must be one well-formed document, content not judged): true/false, numeric-looking tokens that do not match the number grammar cleanly (leading zeros, bare sign, 1e3 without '.', 1I, out-of-range integers/floats), escapes other than \\\\ and \\<own quote>, trailing commas, duplicate keys, bare ints in [B;]/[L;], whitespace inside the `[B;` prefix, characters outside printable ASCII outside quotes; in A1: trees containing NaN/Inf or duplicate keys; empty lists compare equal regardless of element tag")
 	rep.Assume("an implementation error on a text the reference accepts is counted (ref_accepts_impl_errors) but is not a violation in A2: the statement only constrains accepted texts and malformed texts; in A1 the writer's own text must be accepted")
 	rep.Finish()
